@@ -21,7 +21,7 @@ RULE = (
     "for each k} x weighted; mode 'ids': N{2,3,4} x scrambled id columns x weighted; mode 'create': patch_num "
     "{2,3} on clumped data; 'refuse': id sets {0..N-1} vs every proper subset/superset of size N-1,N+1 and "
     "centre k displaced by {0, 0.4, 1.1, 3} x the larger radius. Oracle: num_records/sum_weights from the stored "
-    "records, Vincenty separation <= radius, centres[i] == given centre i, nearest-centre partition. "
+    "records, Vincenty separation <= radius, centres[i] == given centre i (also after the caller has modified its own centre array in place), nearest-centre partition. "
     "Non-trivial: N>=3 with a non-identity permutation, an empty centre, or a refusal case."
 )
 ASSUMPTIONS = [
@@ -164,6 +164,12 @@ def run_centres(case):
         return [viol(f"C12/centres/exception:{type(e).__name__}", f"creation raised {yawx.exc_name(e)}", case)], True
     tag = "/empty-centre" if empty else ""
     check_catalog(cat, "centres", v, given_centres=cen, input_rows=len(objs), weighted=case["weighted"], tag=tag)
+    # the caller reuses its centre array for something else afterwards: the catalog keeps the centres it was given
+    cen0 = cen.copy()
+    cen += 0.125
+    check_catalog(cat, "centres", v, given_centres=cen0, input_rows=len(objs), weighted=case["weighted"],
+                  tag=tag + "/after-caller-modified-its-array")
+    cen = cen0
     # reopened catalog tells the same
     from yaw import Catalog
 
